@@ -19,6 +19,7 @@ package msqrt
 /* -------------------------------------------------------------------------- */
 
 //import   "fmt"
+import "github.com/pbenner/autodiff/verifhook"
 import   "errors"
 
 import . "github.com/pbenner/autodiff"
@@ -52,6 +53,7 @@ func mSqrt(matrix Matrix) (Matrix, error) {
   Z1 := Z0.CloneMatrix()
   Z1.MmulS(Z1.MaddM(Z0, t2), c)
   for t0.Mnorm(S.MsubM(Y0, Y1)).GetFloat64() > 1e-8 {
+    verifhook.Tick("msqrt.iter")
     Y0, Y1 = Y1, Y0
     Z0, Z1 = Z1, Z0
     t1, err := matrixInverse.Run(Z0)
